@@ -86,6 +86,7 @@ def cases(draw):
     src["delay"] = draw(st.sampled_from([0, 0, 100]))
     src["dt_us"] = draw(st.sampled_from([4000, 2000, 1000]))
     src["ext"] = 0
+    src["dt_where"] = draw(st.sampled_from(["both", "both", "both", "trace", "bin"]))
     return {"src": src, "bpv": draw(st.sampled_from([16, 32])), "bs": draw(st.sampled_from(BLOCKSHAPES)), "mode": draw(st.sampled_from(["exhaustive", "thorough", "thorough"])),
             "prog": draw(st.lists(expr(), min_size=5, max_size=30))}
 
